@@ -441,9 +441,110 @@ def explore_laws(rep, tier, seed):
     return dict(judged)
 
 
+# ---------------------------------------------------------------------------------------------
+# relocation: the same program at several bases, model and implementation
+RELOC_BASES = [0o1000, 0o2000, 0o40000, 0o157000]
+
+
+def reloc_specials():
+    S = []
+
+    def one(src):
+        S.append(("reloc-special", src, {}))
+    one("start: mov #msg, r0\nmov msg, r1\nmov @#msg, @msg\n1: dec r0\nbne 1\njsr pc, sub\nbr done\nmsg: .word start, 7, done\nsub: rts pc\ndone: halt\n")
+    one("a: .byte 1, 2, 3\n.even\nb: .word a, b, 5\ncmp #a, #5\nemt 3\ntrap 7\nclr @#b\njmp a\n")
+    one("x: .blkb 3\n.odd\n.even\n.ascii /ab/ <7>\n.even\ny: .word x\nsob r1, y\n")
+    one("l: mov l+2, r0\n")                      # label arithmetic: outside the class
+    one("l: mov #l*2, r0\n")                     # not linear in the base: outside the class
+    one("l: .byte 1\n.align 4\n.word l\n")       # .align: outside the class
+    return S
+
+
+def gen_reloc_prog(rng):
+    """a random program of the class reloc_ok: labels used bare, everything else literal"""
+    nlab = rng.randint(2, 6)
+    labs = ["l%d" % i for i in range(nlab)]
+    regs = ["r0", "r1", "r2", "r3", "r4", "r5", "sp"]
+    lines, pending = [], list(labs)
+    rng.shuffle(pending)
+    for _ in range(rng.randint(4, 24)):
+        if pending and rng.random() < 0.3:
+            lines.append(".even")
+            lines.append(pending.pop() + ":")
+        L, L2, r = rng.choice(labs), rng.choice(labs), rng.choice(regs)
+        k = rng.randrange(0, 200)
+        lines.append(rng.choice([
+            "mov #%s, %s" % (L, r), "mov %s, %s" % (L, r), "mov @#%s, %s" % (L, L2), "cmp #%d., @%s" % (k, L), "jmp %s" % L, "jsr pc, %s" % L,
+            "clr (%s)+" % r, "add %d.(%s), -(%s)" % (k, r, r), "tst @#%s" % L, "emt %d." % k, "trap %d." % (k % 100), "inc %s" % r,
+            ".word %s, %d., %s" % (L, k, L2), ".even\n.word %d." % k, ".byte %d., %d." % (k, k // 2), ".even", ".odd\n.even", ".blkb %d." % (k % 7), ".blkw %d." % (k % 3),
+            ".ascii /ab/ <%d.>" % (k % 128), ".even\n%s, %d." % (L, k), "mul #%s, r2" % L, "xor r1, %s" % L, "push #%s" % L, "nop"]))
+        if lines[-1].startswith((".byte", ".ascii", ".blkb", ".odd")):
+            lines.append(".even")
+    lines.append(".even")
+    for l in pending:
+        lines.append(l + ": nop")
+    return "\n".join(lines) + "\n"
+
+
+def explore_reloc(rep, tier, seed):
+    rng = random.Random(seed ^ 0x7E10C)
+    n = 60 if tier == "quick" else 800
+    P = proggen.Profile
+    profs = [P(n_files=(1, 1), link="never", include=False, skips=False, align=False, defs_use_dot=False, n_stmts=(4, 20)),
+             P(n_files=(1, 1), link="never", include=False, skips=False, align=False, repeat=False, forward_refs=False, n_stmts=(4, 16))]
+    pool = reloc_specials()
+    for i in range(n):
+        p = proggen.gen_program(rng, profs[i % len(profs)])
+        pool.append(("reloc", p.files[0][1], p.fs))
+    for i in range(n):
+        pool.append(("reloc-class", gen_reloc_prog(rng), {}))
+    jobs, keep = [], []
+    for origin, text, fs in pool:
+        conv = ast2coq.convert("r.mac", text, fs=fs)
+        if conv.term is None:
+            rep.count("R:reloc:source-outside-subset")
+            continue
+        keep.append((origin, text, fs, conv.term))
+        for b in RELOC_BASES:
+            jobs.append((([("r.mac", ".link %o\n%s" % (b, text))],), {"fs": fs}))
+    outs = impl.pmap("assemble", jobs)
+    terms = []
+    for k, (origin, text, fs, term) in enumerate(keep):
+        obs = outs[len(RELOC_BASES) * k:len(RELOC_BASES) * (k + 1)]
+        rep.add_eval(len(RELOC_BASES))
+        terms.append("(%s,\n [%s])" % (term, "; ".join("(%d, %s)" % (b, obs_term(o)) for b, o in zip(RELOC_BASES, obs))))
+    codes = []
+    if terms:
+        res = C.run_case_files(RID + "reloc", REQUIRES, PRELUDE, C.shard(terms, 15), judge_expr="map judge_reloc cases",
+                               cases_type="list reloc_case", timeout=1200)
+        codes = [c for sh in res for c in sh]
+    judged = 0
+    for (origin, text, fs, term), code in zip(keep, codes):
+        inp = {"source": text, "bases": RELOC_BASES, "fs": fs_json(fs)}
+        if code & 32:
+            rep.count("R:reloc:model-unsupported")
+            continue
+        if code & 1:
+            rep.disagree("R relocation stream: Asm.assemble differs from the implementation at some base", inp)
+        if code & 4:
+            rep.count("R:reloc:outside-class-reloc_ok")
+            continue
+        judged += 1
+        rep.count("R:reloc:in-class-judged")
+        rep.nontrivial(("R-reloc", text))
+        if code & 16:
+            rep.disagree("R relocation stream: the MODEL's images at two bases violate the relocation law inside the class reloc_ok", inp)
+        if code & 2:
+            rep.violate("r-reloc", "the real code's images of a program of the class reloc_ok at two link bases differ elsewhere than in "
+                        "instruction extension words / .word data, or by something else than the difference of the bases", inp)
+    rep.extra["R_reloc_programs_judged"] = judged
+    return judged
+
+
 def explore_r(rep, tier, seed):
     judged = explore_generated(rep, tier, seed)
     laws = explore_laws(rep, tier, seed)
+    explore_reloc(rep, tier, seed)
     inside, info = explore_corpus(rep)
     return judged, inside, info
 
@@ -457,12 +558,15 @@ if __name__ == "__main__":
     ap.add_argument("--no-corpus", action="store_true")
     ap.add_argument("--no-gen", action="store_true")
     ap.add_argument("--no-laws", action="store_true")
+    ap.add_argument("--no-reloc", action="store_true")
     a = ap.parse_args()
     rep = C.Report("R", a.tier, a.seed)
     if not a.no_gen:
         print("generated/special programs judged in coqc:", explore_generated(rep, a.tier, a.seed))
     if not a.no_laws:
         print("law cases judged in coqc:", explore_laws(rep, a.tier, a.seed))
+    if not a.no_reloc:
+        print("relocation programs judged in coqc (inside the class):", explore_reloc(rep, a.tier, a.seed))
     if not a.no_corpus:
         inside, info = explore_corpus(rep)
         print("corpus programs inside the subset: %d of %d" % (inside, len(CORPUS)))
